@@ -434,7 +434,7 @@ def gen_dop(rng, kind, ddf, frames, nshuffles):
         n = ddf.npartitions
         op['sel'] = sorted(rng.sample(range(n), rng.randint(1, n)))
     elif kind in SHUFFLES:
-        if not agree or nshuffles >= 1:
+        if not agree or nshuffles >= 2:
             return None
         if kind in ('DSortValues', 'DSetIndex') and not has_v:
             return None
